@@ -182,6 +182,13 @@ class C12(Harness):
         self._curW = W
         if cell["kind"] == "pt":
             return self._panel(W, inp, cell)
+        named = []
+        out = self._series_scenario(W, inp, cell, named)
+        # the caller's series carry a *named* time index: the name is part of the caller's data
+        out["index_names"] = [[tag, getattr(s.index, "name", None)] for tag, s in named]
+        return out
+
+    def _series_scenario(self, W, inp, cell, named):
         np, pd = W.np, W.pd
         w = cell["which"]
         hold = self.__dict__.setdefault("_hold", {})
@@ -190,8 +197,10 @@ class C12(Harness):
         log = []
 
         def ser(vals, start, rng=True):
-            idx = pd.RangeIndex(start, start + len(vals)) if rng else pd.Index([start + i for i in range(len(vals))])
-            return pd.Series(list(vals), index=idx)
+            idx = pd.RangeIndex(start, start + len(vals), name="time") if rng else pd.Index([start + i for i in range(len(vals))], name="time")
+            r = pd.Series(list(vals), index=idx)
+            named.append(("series-%d" % len(named), r))
+            return r
 
         y = ser(inp["y"], s0, rng=(w != "sm-adapter"))
         out = {}
@@ -500,6 +509,8 @@ class C12(Harness):
                 self._same_tree(P, "fit-leaves-caller-data-unchanged", out["after3"], out["before3"], d3)
                 self._same_tree(P, "repeated-apply-same-result", out["r3b"], out["r3"], d3)
             return
+        for tag, nm in out.get("index_names", []):
+            P.check("apply-leaves-caller-data-unchanged", nm == "time", dict(d, what="name of the caller's time index", series=tag, name=str(nm)))
         s0 = inp["s0"]
         n = len(inp["y"])
         yi, yv = out["y_after_fit"]
